@@ -57,8 +57,10 @@ class Live:
 
 
 def walk(case, obs):
-    """Yield ("emission", op_index, k, doc, invoked, live_covering, ignore, in_cleanup) and
-    ("token", op_index, expected_token, observed) events."""
+    """Yield ("emission", op_index, k, doc, invoked, live_covering, ignore) and
+    ("token", op_index, expected_token, observed) events.  live_covering is the list of subscriptions
+    live WHEN THE DOCUMENT IS EMITTED; subscriptions changed by callbacks during its delivery (markers
+    cb_sub / cb_unsub, which come after the emit marker) only affect later documents."""
     lv = Live()
     for oi, (op, o) in enumerate(zip(case["ops"], obs["ops"])):
         k = op[0]
@@ -83,7 +85,10 @@ def walk(case, obs):
                     if ent[0] == "sub":
                         t = lv.add(ent[1], ent[2], True)
                         yield ("token", oi, t, ent[3])
-                    elif ent[0] == "unsub":
+                    elif ent[0] == "cb_sub":
+                        t = lv.add(ent[1], ent[2], False)        # RE.subscribe from a callback: permanent
+                        yield ("token", oi, t, ent[3])
+                    elif ent[0] in ("unsub", "cb_unsub"):
                         lv.remove(ent[1])
                     elif ent[0] == "emit":
                         d, inv = o["ems"][ent[1]]
@@ -156,9 +161,14 @@ def sharing(case, obs):
                     temp.add(t)
                     if hit:
                         return True
+                elif ent[0] == "cb_sub":
+                    if add(ent[1], ent[2])[0]:
+                        return True
                 elif ent[0] == "unsub":
                     remove(ent[1])
                     temp.discard(ent[1])
+                elif ent[0] == "cb_unsub":
+                    remove(ent[1])
     return False
 
 
